@@ -106,6 +106,9 @@ def parse_template(path):
                 segs.append(("raw", "\n".join(raw)))
                 raw = []
             cur = Block(kind, words[1:], lineno)
+            if kind in ("macro", "type", "const"):
+                segs.append(("block", cur))
+                cur = None
             continue
         # inside a block
         s = body.strip()
@@ -194,7 +197,8 @@ def apply_fn_subs(unit, item, pc, subs_for_fn, fnargs, owner, canary):
         if sk == "spec":
             rsx.splice_spec(item, pc, text)
         elif sk == "loop":
-            rsx.splice_loop(item, pc, int(sargs[0]), text)
+            _, lkv = parse_kv(sargs[1:])
+            rsx.splice_loop(item, pc, int(sargs[0]), text, iter_name=lkv.get("iter", [None])[0])
         elif sk == "closure":
             pass
         elif sk in ("before", "after"):
@@ -294,6 +298,24 @@ def build_unit(name, tpl_path, canary=False):
         b = seg
         pos, kv = parse_kv(b.args)
         alias = pos[0]
+        if b.kind == "macro":
+            # //@macro NEWALIAS FILEALIAS macro_name invoked_in=FILEALIAS2 index=SymbolIndex collection=SymbolVec
+            new_alias, file_alias, mname = pos[0], pos[1], pos[2]
+            msrc = unit.source(files[file_alias])
+            mitem = msrc.find("macro_rules", mname)
+            subst = {k: v[0] for k, v in kv.items() if k != "invoked_in"}
+            text, note = rsx.expand_macro(msrc, mitem, subst)
+            inv_src = unit.source(files[kv["invoked_in"][0]])
+            args = ", ".join(subst[k] for k in rsx.macro_params(msrc, mitem))
+            if not re.search(r"\b" + mname + r"!\s*\(\s*" + re.escape(args).replace(",\\ ", r",\s*") + r"\s*\)\s*;", inv_src.text):
+                raise ExtractError(f"R-MACRO: no invocation `{mname}!({args});` in {files[kv['invoked_in'][0]]}")
+            vrel = f"{files[file_alias]}#{mname}!({args})"
+            files[new_alias] = vrel
+            unit.sources[vrel] = rsx.Source(vrel, text=text)
+            a, z = mitem.lines()
+            unit.items.append({"kind": "macro", "name": f"{mname}!({args})", "file": files[file_alias], "lines": [a, z],
+                               "sha256_16": mitem.sha(), "rules": [{"rule": "R-MACRO", "line": a, "note": note}], "obligation": None, "contract": None})
+            continue
         if alias not in files:
             raise ExtractError(f"{tpl_path}:{b.lineno}: unknown file alias {alias}")
         rel = files[alias]
@@ -312,6 +334,12 @@ def build_unit(name, tpl_path, canary=False):
             if not pc.audit():
                 raise ExtractError("audit failed")
             unit.emit(pc.render() + "\n\n")
+            record_item(unit, item, rel, pc, b.kind)
+        elif b.kind in ("type", "const"):
+            item = src.find(b.kind, pos[1])
+            pc = rsx.Pieces(src, item.start, item.end)
+            rsx.rule_attrs(item, pc)
+            unit.emit(pc.render() + "\n")
             record_item(unit, item, rel, pc, b.kind)
         elif b.kind == "fn":
             item = src.find("fn", pos[1])
